@@ -469,6 +469,9 @@ class FrbCacheProtocol(FnContract):
                 h = ent['hash']
                 okh = isinstance(h, tuple) and len(h) == 5 and h[0] is st.data and h[2] is st.target and h[3] is key and h[4] is True
                 out.append(('array-cache:key-names-this-dataset-frame-attribute-and-broadcast', okh))
+                # the caller's own list may be edited in place before the next request (stepping through slices): a key that is that very
+                # list would then compare equal to whatever the caller asks for next
+                out.append(("array-cache:key-does-not-hold-the-caller's-bounds-list", h[1] is not st.bounds))
                 if okh:
                     dims_all = sorted(set(sum(st.dims, [])))
                     out += self._bounds_clause('array-cache', h[1], st, dims_all)
